@@ -64,7 +64,7 @@ def tokenize(
             token.update(char, i)
             take -= 1
             continue
-        if quote_context and char == "\\":
+        if quote_context and char == "\\" and quote_context[-1] != "`":
             token.update(char, i)
             take = 1
             continue
